@@ -223,6 +223,12 @@ def tr : P String := do
   let mut v : Verdict := { tag := s!"tr-{L}" ++ (if lam == 0 then "-lam0" else "") }
   let mut ill := false
   let mut maxLen := 0
+  -- clause 2 applies when the samples come from a deterministic MDP whose Q* is the start table and the
+  -- learner's target is greedy (control learners with ε = 0; SARSA(λ) with greedy next actions)
+  let q0 := ofRows init
+  let mut hypS := (L.startsWith "c-" && ε == 0) || L == "sarsal"
+  let mut nxt : List ((Nat × Nat) × Nat) := []
+  let mut starSteps := 0
   for k in [0:n] do
     let s ← P.nat; let a ← P.nat; let s1 ← P.nat; let a1 ← P.nat; let r ← P.q
     let e : StepIn := ⟨s, a, s1, a1, r, α, 0⟩
@@ -243,12 +249,17 @@ def tr : P String := do
     -- pure trajectory
     let ((t2, q2), _) := stepTR L γ α lam tol ε A πt πb mT (ofRows mQ) e
     let r2 := toRows S A q2
-    v := v.diffIf (!(closeRows tolRun r2 out)) s!"{comp} step {k} table trajectory model={showRows r2} impl={showRows out}"
+    -- the control learners' trace discount depends on WHICH action attains the max at s1: when the trajectory
+    -- table has a near-tie there, one ulp decides and the trajectory is not comparable (it is re-synchronised)
+    let qm := ofRows mQ
+    let mAm := argmaxA A (qm s1)
+    let nearTie := L.startsWith "c-" && (List.range A).any (fun x => x != mAm && closeQ tolRun (qm s1 x) (qm s1 mAm))
+    v := v.diffIf (!nearTie && !(closeRows tolRun r2 out)) s!"{comp} step {k} table trajectory model={showRows r2} impl={showRows out}"
     -- (L3) trace clauses on the implementation's own list
     if lamFamily && decide (tol ≤ 1) then
       v := v.failIf (!(tracesInRange tol outT)) s!"{comp} trace_out_of_range step {k} traces={showTraces outT} tol={ratStr tol}"
     if lamFamily && !(decide (tol ≤ 1)) then
-      v := v.failIf (!(tracesInRange tol outT)) s!"{comp} trace_below_cutoff_above_one step {k} traces={showTraces outT} tol={ratStr tol}"
+      v := v.failIf (!(tracesInRange tol outT)) s!"{if L == "sarsal" then "SARSAL" else "OffPolicyBase"} trace_below_cutoff_above_one step {k} learner={comp} traces={showTraces outT} tol={ratStr tol}"
     v := v.failIf (!(tracesNodup outT)) s!"{comp} trace_duplicate step {k} traces={showTraces outT}"
     -- (L3) λ = 0: exactly the one-step expected backup of the target policy, nothing else moves
     if lamFamily && lam == 0 then
@@ -256,8 +267,18 @@ def tr : P String := do
       v := v.failIf (!(closeRows tolStep exp out)) s!"{comp} lambda0_not_one_step step {k} expected={showRows exp} impl={showRows out}"
       let othersSame := ((prev.zip out).zipIdx).all (fun ((rp, ro), si) => ((rp.zip ro).zipIdx).all (fun ((x, y), ai) => (si == s && ai == a) || x == y))
       v := v.failIf (!othersSame) s!"{comp} lambda0_not_one_step step {k} other entries moved impl={showRows out}"
+    if hypS then
+      let mx := maxA A (q0 s1)
+      let consistent := match lookupNext nxt (s, a) with
+        | some s1' => s1' == s1
+        | none => true
+      if (lookupNext nxt (s, a)).isNone then nxt := ((s, a), s1) :: nxt
+      if !(consistent && r == q0 s a - γ * mx && (L != "sarsal" || q0 s1 a1 == mx)) then hypS := false
+      if hypS then
+        starSteps := starSteps + 1
+        v := v.failIf (!(eqRows out init)) s!"{comp} qstar_not_fixed step {k} ({s},{a})->{s1} r={ratStr r} table={showRows out}"
     prevT := outT; prev := out
-    if (k + 1) % window == 0 then
+    if (k + 1) % window == 0 || nearTie then
       mT := outT; mQ := out
     else
       mT := t2; mQ := r2
@@ -265,6 +286,7 @@ def tr : P String := do
   P.eof
   if ill then return "skip ill_conditioned"
   if n == 0 then v := { v with tag := v.tag ++ " trivial" }
+  if starSteps > 0 && starSteps == n then v := { v with tag := v.tag ++ " qstar" }
   v := { v with tag := v.tag ++ s!" len{if maxLen > 3 then 4 else maxLen}" }
   return v.render
 
@@ -343,8 +365,14 @@ def dynab : P String := do
   P.eof
   return v.render
 
+/-- `tolguard L tol` : the constructor rejected a cut-off above one with std::invalid_argument (repaired library) -/
+def tolguard : P String := do
+  let _L ← P.tok; let tol ← P.q; P.eof
+  return (if decide (tol ≤ 1) then "diff OffPolicyBase setTolerance rejected a cut-off <= 1" else "ok tol-rejected")
+
 def handle (toks : List String) : String :=
   let r := match toks with
+    | "tolguard" :: rest => P.run tolguard rest
     | "td" :: rest => P.run td rest
     | "tr" :: rest => P.run tr rest
     | "ps" :: rest => P.run ps rest
